@@ -16,8 +16,12 @@ done
 rm -rf "$d"; mkdir -p "$d"; trap 'rm -rf "$d"' EXIT
 rsync -a --exclude .git --exclude example --exclude 'rewriter/test' "$repo/" "$d/"
 mkdir -p "$d/zzs/src" "$d/zzs/tool"
+# a sample whose second line is `// mode: gogen` is compiled in go:generate mode (rewriter.GoGen): it is stored as s<i>_co.go (it carries the
+# co build tag itself), its companion *.go.txt files are hand-written files of the package the generator leaves alone, the output is
+# generated next to them
+mode=compile; sed -n 2p "$1" | grep -q '^// mode: gogen' && mode=gogen
 i=0
-for f in "$@"; do i=$((i+1)); cp "$f" "$d/zzs/src/s$i.go"; [ -d "${f%.go}.files" ] && cp "${f%.go}.files"/* "$d/zzs/src/"; done
+for f in "$@"; do i=$((i+1)); if [ $mode = gogen ]; then cp "$f" "$d/zzs/src/s${i}_co.go"; else cp "$f" "$d/zzs/src/s$i.go"; fi; [ -d "${f%.go}.files" ] && cp "${f%.go}.files"/* "$d/zzs/src/"; done
 for g in "$d"/zzs/src/*.go.txt; do [ -e "$g" ] && mv "$g" "${g%.txt}"; done   # further Go files of a sample are stored as *.go.txt
 cat > "$d/zzs/tool/main.go" <<'GO'
 package main
@@ -36,15 +40,20 @@ func main() {
 			os.Exit(3)
 		}
 	}()
+	if len(os.Args) > 3 && os.Args[3] == "gogen" {
+		rewriter.GoGen(os.Args[1])
+		return
+	}
 	rewriter.Compile(os.Args[1], os.Args[2])
 }
 GO
 cd "$d"
-out=$(go run ./zzs/tool "$d/zzs/src" "$d/zzs/out" 2>"$d/compile.err"); st=$?
+out=$(go run ./zzs/tool "$d/zzs/src" "$d/zzs/out" $mode 2>"$d/compile.err"); st=$?
 if [ $st -ne 0 ]; then
   if echo "$out" | grep -q COMPILER-PANIC; then echo "$out" | grep COMPILER-PANIC | cut -c1-400; else echo "COMPILER-PANIC: $(tail -5 "$d/compile.err" | tr '\n' ' ' | cut -c1-400)"; fi
   exit 3
 fi
+if [ $mode = gogen ]; then rm -rf "$d/zzs/out"; mv "$d/zzs/src" "$d/zzs/out"; fi   # generated in place: the package is the source directory
 # companion files of a sample (<sample>.files/*: e.g. a file named by //go:embed) belong next to the generated code too:
 # the compiler writes Go files only, as it does when it generates in place
 for f in "$@"; do [ -d "${f%.go}.files" ] && for c in "${f%.go}.files"/*; do case "$c" in *.go.txt) ;; *) cp "$c" "$d/zzs/out/";; esac; done; done
